@@ -1751,6 +1751,36 @@ func (k *Kernel) handleStateMachineRoundEntrance(ctx context.Context, s *kState,
 			return
 		}
 
+		if status == ViewOrphaned {
+			// The state machine entered a round of the voting height that the mirror already left,
+			// for instance because the mirror jumped ahead more than one round
+			// while the state machine was still busy in an earlier round.
+			// We no longer hold a view for that round,
+			// so answer with an empty view for it, and tell the state machine to jump ahead.
+			// The state machine advances one round per jump ahead signal,
+			// so this repeats until it has caught up with the voting round.
+			vrv := tmconsensus.VersionedRoundView{
+				RoundView: tmconsensus.RoundView{
+					Height: re.H,
+					Round:  re.R,
+
+					ValidatorSet: s.Voting.ValidatorSet,
+
+					PrevCommitProof: s.Voting.PrevCommitProof.Clone(),
+
+					VoteSummary: tmconsensus.NewVoteSummary(),
+				},
+				Version: 1,
+			}
+			vrv.VoteSummary.AvailablePower = s.Voting.VoteSummary.AvailablePower
+
+			// Response channel is 1-buffered so it is safe to send this without a select.
+			re.Response <- tmeil.RoundEntranceResponse{VRV: vrv}
+			s.StateMachineViewManager.MarkFirstSentVersion(vrv.Version)
+			s.StateMachineViewManager.JumpToRound(s.Voting)
+			return
+		}
+
 		panic(fmt.Errorf(
 			"TODO: handle view not found (status=%s) when responding to state machine round update for height/round %d/%d",
 			status, re.H, re.R,
